@@ -10,6 +10,7 @@ import DTML.Props.C11
 import DTML.Props.C02
 import DTML.GenIn
 import DTML.Lemmas.InGen
+import DTML.Lemmas.SeqVar
 set_option linter.unusedVariables false
 namespace DTML.Props.C10
 open DTML.Render
@@ -722,5 +723,228 @@ theorem gen_in_loop_from_start (env : Env) (o : InOpts) (body : List Blk) (fuel 
 /-- non-vacuity of the hypothesis past index 0: with a refused first element that is skipped the flag is still set at element 1 -/
 example : startedAt { guardOn := true, deniedItems := [7] } { skipUnauth := true }
     { items := [.obj 7 [], .int 1] } 1 = true := by decide
+/-! ### The per-index methods of `sequence_variables` are those of the source
+
+`GenSeqVar.numberGen … lengthGen` are regenerated on every run by translating the methods `number`, `even`, `odd`, `letter`,
+`Letter`, `key`, `item`, `Roman`, `roman`, `value`, `first`, `last`, `length` of class `sequence_variables` in /repo statement
+by statement (harness/trans_seqvar.py): every expression (`index + 1`, `index % 2 == 0`, `index % 2`, `ord('a') + index`,
+`self.items[index][0]`, the 2-tuple test, `data['mapping']`, `index - 1` / `index + 1`, the `sequence-start` /
+`sequence-end` short cuts returning 1) stands in the generated text as it stands in the source, over a run-time library of
+Python's operations on the model's values.  `roman.toRoman` is third party and stays the model's `toRoman`. -/
+section GenSeqVar
+open DTML.GenSeqVar DTML.Lemmas.SeqVar
+
+/-- `number`, `even`, `odd`, `length`, `Roman`, `roman` compute what `seqFixed` lists for them, for every index -/
+theorem gen_seqvar_arith_is_model (sv : SeqVars) (i : Nat) (v : Val) :
+    numberGen sv (.int i) = .ok (.int (i + 1)) ∧
+    evenGen sv (.int i) = .ok (.bool (i % 2 == 0)) ∧
+    oddGen sv (.int i) = .ok (.int (i % 2)) ∧
+    lengthGen sv v = .ok (.int sv.items.length) ∧
+    RomanGen sv (.int i) =
+      (if i + 1 < 5000 then .ok (.str (toRoman (i + 1))) else .raise (exc "OutOfRangeError")) ∧
+    romanGen sv (.int i) =
+      (if i + 1 < 5000 then .ok (.str ((toRoman (i + 1)).map Char.toLower)) else .raise (exc "OutOfRangeError")) := by
+  have hR : RomanGen sv (.int i) =
+      (if i + 1 < 5000 then .ok (.str (toRoman (i + 1))) else .raise (exc "OutOfRangeError")) := by
+    simp only [RomanGen, pyLet, pyInt, pyAdd, arith, lit, pyToRoman, bind_ok, asInt_int]
+    have e : ((i : Int) + 1).toNat = i + 1 := by omega
+    by_cases hl : i + 1 < 5000
+    · have : (0 : Int) < (i : Int) + 1 ∧ (i : Int) + 1 < 5000 := by omega
+      rw [if_pos hl, if_pos this, e]
+    · have : ¬ ((0 : Int) < (i : Int) + 1 ∧ (i : Int) + 1 < 5000) := by omega
+      have h0 : ¬ ((i : Int) + 1 = 0) := by omega
+      rw [if_neg hl, if_neg this, if_neg h0]
+  refine ⟨?_, ?_, ?_, ?_, hR, ?_⟩
+  · simp [numberGen, pyAdd, arith, lit]
+  · have h : (((i : Int) % 2) == 0) = (i % 2 == 0) := by
+      rw [Bool.eq_iff_iff, beq_iff_eq, beq_iff_eq]; omega
+    simp only [evenGen, pyEq, pyMod, arith, lit, valBeq, fmod2, bind_ok, asInt_int]
+    simp [h]
+  · simp [oddGen, pyMod, arith, lit, fmod2]
+  · simp [lengthGen, pyLet, pyLen, selfItems]
+  · simp only [romanGen, pyCall1, bind_ok, hR, pyLower]
+    by_cases hl : i + 1 < 5000
+    · simp [hl]
+    · simp [hl]
+
+/-- `letter` / `Letter`: `chr(ord('a') + index)` is `letterOf 97`, `chr(ord('A') + index)` is `letterOf 65`, as long as the
+code point exists (beyond `sys.maxunicode` the source raises ValueError) -/
+theorem gen_seqvar_letter_is_model (sv : SeqVars) (i : Nat) :
+    (97 + i < maxCode → letterGen sv (.int i) = .ok (.str (letterOf 97 i))) ∧
+    (65 + i < maxCode → LetterGen sv (.int i) = .ok (.str (letterOf 65 i))) ∧
+    (¬ 97 + i < maxCode → letterGen sv (.int i) = .raise (exc "ValueError")) ∧
+    (¬ 65 + i < maxCode → LetterGen sv (.int i) = .raise (exc "ValueError")) := by
+  have ha : pyOrd (pyStr "a") = .ok (.int (97 : Nat)) := by rfl
+  have hA : pyOrd (pyStr "A") = .ok (.int (65 : Nat)) := by rfl
+  refine ⟨fun h => ?_, fun h => ?_, fun h => ?_, fun h => ?_⟩
+  · simp only [letterGen, ha, chr_add_ok 97 i h]
+  · simp only [LetterGen, hA, chr_add_ok 65 i h]
+  · simp only [letterGen, ha, chr_add_out 97 i h]
+  · simp only [LetterGen, hA, chr_add_out 65 i h]
+
+/-- `item`: the element, the second half of a 2-tuple - `seqItem` (an index past the end raises IndexError) -/
+theorem gen_seqvar_item_is_model (sv : SeqVars) (i : Nat) :
+    itemGen sv (.int i) =
+      (match sv.items[i]? with | some _ => .ok (seqItem sv i) | none => .raise (exc "IndexError")) := by
+  simp only [itemGen, pyLet, items_at]
+  cases h : sv.items[i]? with
+  | none => rfl
+  | some v => simp only [bind_ok]; exact unwrap_eq sv i v h
+
+/-- `key` = `items[index][0]` is `seqKeyRes` (a KeyError = "not in this frame") -/
+theorem gen_seqvar_key_is_model (sv : SeqVars) (h : sv.index < sv.items.length) :
+    toSeqRes (keyGen sv (.int sv.index)) = seqKeyRes sv := by
+  simp only [keyGen, items_at, seqKeyRes]
+  have hs : sv.items[sv.index]? = some sv.items[sv.index] := by simp [h]
+  rw [hs]
+  cases sv.items[sv.index] with
+  | tuple xs => cases xs <;> simp [pySubscr, lit, subscr, pyIdx, toSeqRes, exc_def]
+  | list xs => cases xs <;> simp [pySubscr, lit, subscr, pyIdx, toSeqRes, exc_def]
+  | str xs => cases xs <;> simp [pySubscr, lit, subscr, pyIdx, toSeqRes, exc_def]
+  | _ => simp [pySubscr, lit, subscr, toSeqRes, exc_def]
+
+/-- on a 2-tuple `key` is the model's `seqKey` -/
+theorem gen_seqvar_key_is_seqKey (sv : SeqVars) (i : Nat) (k : Val) (h : seqKey sv i = some k) :
+    keyGen sv (.int i) = .ok k := by
+  simp only [keyGen, items_at]
+  unfold seqKey at h
+  split at h
+  · rename_i k' v' hk
+    rw [hk]
+    simp only [Option.some.injEq] at h
+    simp [pySubscr, lit, subscr, pyIdx, h]
+  · cases h
+
+theorem gen_seqvar_value_unfolds (sv : SeqVars) (i : Nat) (x : Text) :
+    valueGen sv (.int i) (.str x) =
+      (match sv.items[i]? with | some _ => valueOf sv (seqItem sv i) x | none => .raise (exc "IndexError")) := by
+  simp only [valueGen, pyLet, items_at]
+  cases h : sv.items[i]? with
+  | none => rfl
+  | some v => simp only [bind_ok, unwrap_eq sv i v h]; rfl
+
+/-- `value(index, name)` is `seqValueStrict` (what first-x / last-x compare) for every index inside the sequence -/
+theorem gen_seqvar_value_is_model (sv : SeqVars) (i : Nat) (x : Text) (h : i < sv.items.length) :
+    toSVal (valueGen sv (.int i) (.str x)) = seqValueStrict sv i x := by
+  rw [gen_seqvar_value_unfolds]
+  have hs : sv.items[i]? = some sv.items[i] := by simp [h]
+  rw [hs]
+  exact valueOf_strict sv i x
+
+/-- `self.value(…)` inside `try … except Exception: pass` (how `sequence-var-x` reads it) is `seqValue`, for every index -/
+theorem gen_seqvar_value_is_seqValue (sv : SeqVars) (i : Nat) (x : Text) :
+    optOf (valueGen sv (.int i) (.str x)) = seqValue sv i x := by
+  rw [gen_seqvar_value_unfolds]
+  cases hs : sv.items[i]? with
+  | none => simp [optOf, seqValue, seqItem, hs]
+  | some v =>
+    simp only [valueOf, seqValue, data_mapping]
+    cases hm : sv.mapping <;> cases seqItem sv i <;>
+      simp only [pyIf, truthy, pySubscr, subscr, pyGetattr, exc_def, bind_ok, optOf, asInt, if_true, if_false,
+        Bool.false_eq_true]
+    all_goals (first | rfl | (cases List.lookup x _ <;> rfl))
+
+/-- the positions the loop produces: an index inside the sequence, a predecessor unless `sequence-start` is set, a
+successor unless `sequence-end` is set (decidable) -/
+def WellPlaced (sv : SeqVars) : Prop :=
+  sv.noIndex = false ∧ sv.index < sv.items.length ∧ (sv.started = false → 1 ≤ sv.index) ∧
+    (sv.ended = false → sv.index + 1 < sv.items.length)
+
+instance (sv : SeqVars) : Decidable (WellPlaced sv) := by unfold WellPlaced; infer_instance
+
+/-- every frame the loop sets (`svAt`) is well placed -/
+theorem svAt_wellPlaced (sv : SeqVars) (i : Nat) (hn : sv.noIndex = false) (hi : i < sv.items.length) :
+    WellPlaced (svAt sv i) := by
+  refine ⟨hn, hi, ?_, ?_⟩
+  · simp only [svAt]; intro h; have : i ≠ 0 := by simpa using h
+    omega
+  · simp only [svAt]; intro h
+    have h2 : ¬ (i + 1 = sv.items.length) := by
+      intro e; simp [e] at h
+    show i + 1 < sv.items.length
+    omega
+
+example : WellPlaced { items := [.int 1, .int 2, .int 3], index := 1, started := false, ended := false } := by decide
+
+private theorem neighbours (sv : SeqVars) (x : Text) (i j : Nat) (hi : i < sv.items.length) (hj : j < sv.items.length) :
+    toSeqRes (pyNe (pyCall2 (valueGen sv) (.ok (.int i)) (.ok (.str x))) (pyCall2 (valueGen sv) (.ok (.int j)) (.ok (.str x)))) =
+      (match seqValueStrict sv i x with
+       | .raise e => .raise e
+       | .keyMissing => .missing
+       | .val a =>
+         match seqValueStrict sv j x with
+         | .raise e => .raise e
+         | .keyMissing => .missing
+         | .val b => .val (.bool (!(valBeq 3 a b)))) := by
+  rw [← gen_seqvar_value_is_model sv i x hi, ← gen_seqvar_value_is_model sv j x hj]
+  simp only [pyCall2, bind_ok, pyNe]
+  cases valueGen sv (.int i) (.str x) <;> cases valueGen sv (.int j) (.str x) <;> rfl
+
+/-- `first(name)`: 1 while `sequence-start` is set, else whether the element's `name` differs from its predecessor's
+(`index - 1` of the source) - the `first-` branch of `seqLookup` -/
+theorem gen_seqvar_first_is_model (sv : SeqVars) (x : Text) (k : Val) (hw : WellPlaced sv) :
+    toSeqRes (firstGen sv (.str x) k) =
+      (if sv.started then .val (.int 1) else neighbourDiffers sv (sv.index - 1) x) := by
+  obtain ⟨hn, hi, hs, he⟩ := hw
+  simp only [firstGen, data_start, pyIf, bind_ok]
+  cases hst : sv.started with
+  | true => simp [truthy, lit, toSeqRes]
+  | false =>
+    have h1 := hs hst
+    have hsub : pySub (.ok (.int sv.index)) (lit 1) = .ok (.int ((sv.index - 1 : Nat) : Int)) := by
+      simp only [pySub, arith, lit, bind_ok, asInt_int]
+      congr 2; omega
+    simp only [truthy, pyLet, data_index sv hn, bind_ok, hsub]
+    simp only [show ((0 : Int) != 0) = false from rfl, Bool.false_eq_true, if_false]
+    rw [neighbours sv x sv.index (sv.index - 1) hi (by omega)]
+    rfl
+
+/-- `last(name)`: 1 while `sequence-end` is set, else whether the element's `name` differs from its successor's
+(`index + 1` of the source) - the `last-` branch of `seqLookup` -/
+theorem gen_seqvar_last_is_model (sv : SeqVars) (x : Text) (k : Val) (hw : WellPlaced sv) :
+    toSeqRes (lastGen sv (.str x) k) =
+      (if sv.ended then .val (.int 1) else neighbourDiffers sv (sv.index + 1) x) := by
+  obtain ⟨hn, hi, hs, he⟩ := hw
+  simp only [lastGen, data_end, pyIf, bind_ok]
+  cases hst : sv.ended with
+  | true => simp [truthy, lit, toSeqRes]
+  | false =>
+    have h1 := he hst
+    have hadd : pyAdd (.ok (.int sv.index)) (lit 1) = .ok (.int ((sv.index + 1 : Nat) : Int)) := by
+      simp only [pyAdd, arith, lit, bind_ok, asInt_int]
+      congr 2
+    simp only [truthy, pyLet, data_index sv hn, bind_ok, hadd]
+    simp only [show ((0 : Int) != 0) = false from rfl, Bool.false_eq_true, if_false]
+    rw [neighbours sv x sv.index (sv.index + 1) hi h1]
+    rfl
+
+/-- **the fixed-name table of the model is the methods of the source**: for every per-index name of `seqFixed`, its entry
+is what the source's method of that name returns for `sequence-index` -/
+theorem gen_seqvar_fixed_is_model (sv : SeqVars) (hi : sv.index < sv.items.length) (hc : 97 + sv.index < maxCode) :
+    seqFixed sv "number".toList = optOf (numberGen sv (.int sv.index)) ∧
+    seqFixed sv "even".toList = optOf (evenGen sv (.int sv.index)) ∧
+    seqFixed sv "odd".toList = optOf (oddGen sv (.int sv.index)) ∧
+    seqFixed sv "letter".toList = optOf (letterGen sv (.int sv.index)) ∧
+    seqFixed sv "Letter".toList = optOf (LetterGen sv (.int sv.index)) ∧
+    seqFixed sv "Roman".toList = optOf (RomanGen sv (.int sv.index)) ∧
+    seqFixed sv "roman".toList = optOf (romanGen sv (.int sv.index)) ∧
+    seqFixed sv "length".toList = optOf (lengthGen sv (.int sv.index)) ∧
+    seqFixed sv "item".toList = optOf (itemGen sv (.int sv.index)) := by
+  obtain ⟨h1, h2, h3, h4, h5, h6⟩ := gen_seqvar_arith_is_model sv sv.index (.int sv.index)
+  obtain ⟨l1, l2, _, _⟩ := gen_seqvar_letter_is_model sv sv.index
+  have hs : sv.items[sv.index]? = some sv.items[sv.index] := by simp [hi]
+  rw [h1, h2, h3, h4, h5, h6, l1 hc, l2 (by omega), gen_seqvar_item_is_model, hs]
+  refine ⟨?_, ?_, ?_, ?_, ?_, ?_, ?_, ?_, ?_⟩
+  · simp [seqFixed, optOf]
+  · simp [seqFixed, optOf]
+  · simp [seqFixed, optOf]
+  · simp [seqFixed, optOf]
+  · simp [seqFixed, optOf]
+  · by_cases h : sv.index + 1 < 5000 <;> simp [seqFixed, optOf, h]
+  · by_cases h : sv.index + 1 < 5000 <;> simp [seqFixed, optOf, h]
+  · simp [seqFixed, optOf]
+  · simp [seqFixed, optOf]
+
+end GenSeqVar
 
 end DTML.Props.C10
